@@ -19,7 +19,10 @@ namespace IPT.C15
 open IPT
 variable {P : Type}
 
-/-- the skeleton the translator reads off prayer_times_dt_rng_block -/
+/-- build guard: the skeleton the translator reads off `prayer_times_dt_rng_block` is the one the
+    transition system `bStep` was written for (clone per worker inside the loop, drop after the loop
+    and before the join, unconditional append).  `bStep` is not parameterised by the shape: the
+    theorems below are about the protocol so described, and this guard is what ties the source to it. -/
 theorem source_skeleton : Gen.protocol = ⟨true, true, true, true, true, true⟩ := by decide
 
 /-- everything that exists in a state, as one list -/
@@ -352,7 +355,8 @@ theorem schedule_bound (parts : List P) (as : List BAct) (s : BState P) (h : bRu
   have := run_length_le as _ _ h
   simp [measure, bInit] at this; omega
 
-/-- the sequential path is taken iff one core or fewer than the threshold of days per core -/
+/-- (definition unfolding) the sequential path is taken iff one core or fewer than the threshold of
+    days per core; both paths return the same map, so nothing below depends on it -/
 theorem uses_sequential_iff (days avail minDays : Nat) :
     usesSequential days avail minDays = true ↔ avail = 1 ∨ days / avail < minDays := by
   simp [usesSequential]
